@@ -247,7 +247,11 @@ class QuicLoggerTrace:
 
     def _encode_http3_headers(self, headers: Headers) -> list[dict]:
         return [
-            {"name": h[0].decode("utf8"), "value": h[1].decode("utf8")} for h in headers
+            {
+                "name": h[0].decode("utf8", errors="backslashreplace"),
+                "value": h[1].decode("utf8", errors="backslashreplace"),
+            }
+            for h in headers
         ]
 
     # CORE
